@@ -736,6 +736,9 @@ class Evolution(pg.DNAGenerator):
           'the initial population size (through the second item of the '
           '`population_init` tuple) or reduce the number of parallel sampling '
           'clients.')
+    # The reproduction may hand back its input list (e.g. `Identity()`): the
+    # replacements below must not be written into the population itself.
+    children = list(children)
     proposed_ids = set()
     for i, child in enumerate(children):
       # NOTE(daiyip): If a child's feedback sequence number exists, it's
